@@ -307,9 +307,9 @@ class NormalizeCatLoop(LoopContract):
         N = "InFieldName"
         I.temps("raw", "normal")
         sp = SPECS["NormalizeCat"]
-        s = I.st.get(I.st.env["result"]) if I.mode == "check" else None
+        I.bound(I.a("result"))
         # the result's own mask/kind are whatever the code made them: keep the observed ones and let the exit check judge
-        cur = I.st.get(I.st.env["result"])
+        cur = I.st.get(I.var("result"))
         I.arr("result", cur.kind, FLT, x.shape(N), cur.miss if I.mode == "check" else (lambda c: z3.BoolVal(False)),
               lambda c: sp.cat(x, I.j - 1, c), where=lambda c: z3.Not(x.miss(N, c)))
 
